@@ -392,6 +392,7 @@ pub fn realise_history(case: &serde_json::Value) -> (String, Vec<Step>) {
                 let (range, ins) = match kind {
                     "split" => (at..at, " ".to_string()),
                     "space" => (starts[i]..starts[i], if kk % 2 == 0 { " ".to_string() } else { "\n  ".to_string() }),
+                    "comment" => (starts[i]..starts[i], if kk % 2 == 0 { "// ".to_string() } else { "//".to_string() }),
                     "join" => {
                         if i + 1 < spells.len() {
                             (starts[i + 1] - 1..starts[i + 1], String::new())
